@@ -13,6 +13,9 @@ Module C13_ex.
     [FRead pa; FWrite pb (Ok (of_string "x 1; y 2;")); FWrite pa (Raise E_Value); FRead pb; FWrite pc (Ok (of_string "new file"))].
 End C13_ex.
 
+(* The theorems C13_read_pure ... C13_history below are sanity lemmas about the SPECIFICATION vocabulary (fs_step / fs_get
+   of Spec/MiscSpec.v); the theorems about the MODEL's file-tree step (Reader.writer_write / writer_run) are the
+   C13_model_* theorems at the end of this file. *)
 Theorem C13_read_pure : forall fs p, fs_step fs (FRead p) = fs.
 Proof. exact fs_read_pure. Qed.
 Print Assumptions C13_read_pure.
@@ -101,3 +104,125 @@ Example C13_prefix_once_dotted_name :
   target_file_name (of_string "test.dict") (Some w_parsed) [] None = of_string "parsed.test.dict" /\
   target_file_name (of_string "parsed.test.dict") (Some w_parsed) [] None = of_string "parsed.test.dict".
 Proof. vm_compute. split; reflexivity. Qed.
+
+(* ================================================================================================================ *)
+(* The file-tree step of the MODEL: Reader.writer_write / writer_run (DictWriter.write on a world path -> text).    *)
+(* ================================================================================================================ *)
+From DictIO Require Import KeyPath SDict Layout Reader WriteProofs.
+
+Module C13_mex.
+  Definition pa := of_string "/r/a".  Definition pb := of_string "/r/parsed.a".  Definition pc := of_string "/r/new".
+  (* the target pb exists and holds a comment and an entry *)
+  Definition w0 : world := [(pa, of_string "x 1;"); (pb, of_string "// kept
+a 1;
+")].
+  (* the target exists but cannot be parsed: appending to it raises *)
+  Definition wbad : world := [(pa, of_string "x 1;"); (pb, of_string "a {")].
+  (* another world with the same content under the target *)
+  Definition w1 : world := [(pc, of_string "y 2;"); (pb, of_string "// kept
+a 1;
+")].
+  Definition d1 : list (key * tree) :=
+    [(KS (of_string "a"), Leaf (SStr (of_string "5"))); (KS (of_string "b"), Leaf (SStr (of_string "2")))].
+  Definition appended : str := native_header ++ of_string "// kept
+a                             1;
+b                             2;
+".
+  Definition overwritten : str := of_string "a                             5;
+b                             2;
+".
+  Definition ops : list (bool * list (key * tree)) := [(true, d1); (false, d1); (true, [])].
+End C13_mex.
+
+(* a write (append or overwrite, succeeding or raising) leaves every other path alone -- one step and any history *)
+Theorem C13_model_frame : forall foam w target p, p <> target ->
+  (forall ap d, w_get p (fst (writer_write foam w target ap d)) = w_get p w) /\
+  (forall ops, w_get p (writer_run foam w target ops) = w_get p w).
+Proof. exact model_frame. Qed.
+Print Assumptions C13_model_frame.
+
+(* non-vacuity: an append to pb and a history of three writes to pb really change the world; pa is untouched *)
+Example C13_model_frame_nonvacuous :
+  C13_mex.pa <> C13_mex.pb /\
+  fst (writer_write false C13_mex.w0 C13_mex.pb true C13_mex.d1) <> C13_mex.w0 /\
+  w_get C13_mex.pa (fst (writer_write false C13_mex.w0 C13_mex.pb true C13_mex.d1)) = Some (of_string "x 1;") /\
+  writer_run false C13_mex.w0 C13_mex.pb C13_mex.ops <> C13_mex.w0 /\
+  w_get C13_mex.pa (writer_run false C13_mex.w0 C13_mex.pb C13_mex.ops) = Some (of_string "x 1;").
+Proof.
+  assert (H : C13_mex.pa <> C13_mex.pb) by discriminate.
+  destruct (C13_model_frame false C13_mex.w0 C13_mex.pb C13_mex.pa H) as [A B].
+  refine (conj H (conj _ (conj (A true C13_mex.d1) (conj _ (B C13_mex.ops))))); vm_compute; discriminate.
+Qed.
+
+(* a raising write (parse_values on the source, or reading the existing target in append mode) changes nothing *)
+Theorem C13_model_no_clobber : forall foam w target ap d e,
+  snd (writer_write foam w target ap d) = Raise e -> fst (writer_write foam w target ap d) = w.
+Proof. exact model_no_clobber. Qed.
+Print Assumptions C13_model_no_clobber.
+
+(* non-vacuity: appending to a target that cannot be parsed raises (IndexError); the target keeps its content *)
+Example C13_model_no_clobber_nonvacuous :
+  snd (writer_write false C13_mex.wbad C13_mex.pb true C13_mex.d1) = Raise E_Index /\
+  fst (writer_write false C13_mex.wbad C13_mex.pb true C13_mex.d1) = C13_mex.wbad /\
+  w_get C13_mex.pb (fst (writer_write false C13_mex.wbad C13_mex.pb true C13_mex.d1)) = Some (of_string "a {").
+Proof.
+  assert (H : snd (writer_write false C13_mex.wbad C13_mex.pb true C13_mex.d1) = Raise E_Index) by (vm_compute; reflexivity).
+  pose proof (C13_model_no_clobber _ _ _ _ _ _ H) as E.
+  refine (conj H (conj E _)). rewrite E. vm_compute. reflexivity.
+Qed.
+
+(* a successful write puts exactly the returned text under the target; the text depends on the world only through the
+   content of the target, and in overwrite mode not on the world at all *)
+Theorem C13_model_target : forall foam w target ap d,
+  (forall txt, snd (writer_write foam w target ap d) = Ok txt ->
+     w_get target (fst (writer_write foam w target ap d)) = Some txt) /\
+  (forall w', w_get target w' = w_get target w ->
+     snd (writer_write foam w' target ap d) = snd (writer_write foam w target ap d)) /\
+  (forall w', snd (writer_write foam w' target false d) = snd (writer_write foam w target false d)).
+Proof. exact model_target. Qed.
+Print Assumptions C13_model_target.
+
+(* non-vacuity: the append keeps the comment and the existing a, adds b; a different world with the same target content
+   gives the same text; the overwrite gives the same text from a world whose target is unparsable *)
+Example C13_model_target_nonvacuous :
+  snd (writer_write false C13_mex.w0 C13_mex.pb true C13_mex.d1) = Ok C13_mex.appended /\
+  w_get C13_mex.pb (fst (writer_write false C13_mex.w0 C13_mex.pb true C13_mex.d1)) = Some C13_mex.appended /\
+  C13_mex.w1 <> C13_mex.w0 /\ w_get C13_mex.pb C13_mex.w1 = w_get C13_mex.pb C13_mex.w0 /\
+  snd (writer_write false C13_mex.w1 C13_mex.pb true C13_mex.d1) = Ok C13_mex.appended /\
+  snd (writer_write false C13_mex.w0 C13_mex.pb false C13_mex.d1) = Ok C13_mex.overwritten /\
+  snd (writer_write false C13_mex.wbad C13_mex.pb false C13_mex.d1) = Ok C13_mex.overwritten.
+Proof.
+  destruct (C13_model_target false C13_mex.w0 C13_mex.pb true C13_mex.d1) as [A [B _]].
+  destruct (C13_model_target false C13_mex.w0 C13_mex.pb false C13_mex.d1) as [_ [_ C]].
+  assert (H : snd (writer_write false C13_mex.w0 C13_mex.pb true C13_mex.d1) = Ok C13_mex.appended) by (vm_compute; reflexivity).
+  assert (H1 : w_get C13_mex.pb C13_mex.w1 = w_get C13_mex.pb C13_mex.w0) by (vm_compute; reflexivity).
+  assert (H2 : snd (writer_write false C13_mex.w0 C13_mex.pb false C13_mex.d1) = Ok C13_mex.overwritten) by (vm_compute; reflexivity).
+  refine (conj H (conj (A _ H) (conj _ (conj H1 (conj _ (conj H2 _)))))).
+  - discriminate.
+  - rewrite (B C13_mex.w1 H1). exact H.
+  - rewrite (C C13_mex.wbad). exact H2.
+Qed.
+
+(* the set of paths grows by at most the target (appended at the end, and only if it was absent) -- one step and any
+   history *)
+Theorem C13_model_domain : forall foam w target,
+  (forall ap d, map fst (fst (writer_write foam w target ap d)) = map fst w \/
+                (w_get target w = None /\ map fst (fst (writer_write foam w target ap d)) = map fst w ++ [target])) /\
+  (forall ops, map fst (writer_run foam w target ops) = map fst w \/
+               (w_get target w = None /\ map fst (writer_run foam w target ops) = map fst w ++ [target])).
+Proof. exact model_domain_both. Qed.
+Print Assumptions C13_model_domain.
+
+(* non-vacuity: both alternatives occur -- writing the existing pb keeps the paths, writing the absent pc adds it *)
+Example C13_model_domain_nonvacuous :
+  map fst (fst (writer_write false C13_mex.w0 C13_mex.pb true C13_mex.d1)) = [C13_mex.pa; C13_mex.pb] /\
+  w_get C13_mex.pc C13_mex.w0 = None /\
+  map fst (fst (writer_write true C13_mex.w0 C13_mex.pc true C13_mex.d1)) = [C13_mex.pa; C13_mex.pb; C13_mex.pc] /\
+  map fst (writer_run true C13_mex.w0 C13_mex.pc C13_mex.ops) = [C13_mex.pa; C13_mex.pb; C13_mex.pc] /\
+  (map fst (writer_run true C13_mex.w0 C13_mex.pc C13_mex.ops) = map fst C13_mex.w0 \/
+   (w_get C13_mex.pc C13_mex.w0 = None /\
+    map fst (writer_run true C13_mex.w0 C13_mex.pc C13_mex.ops) = map fst C13_mex.w0 ++ [C13_mex.pc])).
+Proof.
+  destruct (C13_model_domain true C13_mex.w0 C13_mex.pc) as [_ B].
+  refine (conj _ (conj _ (conj _ (conj _ (B C13_mex.ops))))); vm_compute; reflexivity.
+Qed.
